@@ -116,7 +116,11 @@ impl Scenario for Skip {
         let mut p = Plan::new("skip", base_seed, run);
         let mut toks = vec![];
         if rng.chance(1, 4) {
-            toks.push(tok_decl(rng));
+            // read_text decodes with the declared encoding (C17's subject): keep to UTF-8 here
+            toks.push(Tok::new(
+                TK::Decl,
+                *rng.pick(&["<?xml version=\"1.0\"?>", "<?xml version='1.0' encoding=\"UTF-8\"?>", "<?xml version=\"1.0\" standalone='yes' ?>"]),
+            ));
         }
         if rng.chance(1, 5) {
             toks.push(Tok::new(TK::Text, "\n"));
@@ -291,9 +295,9 @@ impl Scenario for Skip {
                 }
                 let text_mode = matches!(op, Op::ReadText);
                 let got: Result<((u64, u64), Option<String>), Error> = if text_mode {
-                    // read_text does not return the span; recover it from the positions
+                    // read_text does not return the span: the text itself is compared below
                     match rd.read_text(&name).unwrap() {
-                        Ok(s) => Ok(((start_pos, start_pos + s.len() as u64), Some(s))),
+                        Ok(s) => Ok(((0, 0), Some(s))),
                         Err(e) => Err(e),
                     }
                 } else {
@@ -352,7 +356,7 @@ impl Scenario for Skip {
                         return;
                     }
                     (Ok((span, text)), Some((want_span, want_pos)), None, false) => {
-                        if span != want_span {
+                        if !text_mode && span != want_span {
                             v.push(Violation::new(
                                 "C12",
                                 "wrong-span",
@@ -363,7 +367,7 @@ impl Scenario for Skip {
                                     start_pos,
                                     span,
                                     want_span,
-                                    if text_mode { " (span recovered from read_text length)" } else { "" }
+                                    ""
                                 ),
                             ));
                             return;
@@ -547,6 +551,7 @@ impl Scenario for Ns {
         let log = new_log(refill_budget(plan.doc.len(), &plan.stream) * 2);
         let mut v: Vec<Violation> = vec![];
         let mut skips = 0u64;
+        let mut mid_skips = 0u64;
         let mut shadow = false;
         let mut decl_seen = false;
         let res = guard(|| {
@@ -555,17 +560,22 @@ impl Scenario for Ns {
             let mut pending_pop = false;
             let mut ti = 0usize; // next token
             let mut half: Option<usize> = None; // expanded <e/> whose End is still to come
-            let mut last_start: Option<usize> = None; // token index of the Start just returned
+            // token indices of the elements that are open right now (innermost last);
+            // "skip current element" may be called at any time while one is open
+            let mut open: Vec<usize> = vec![];
             for (oi, op) in plan.ops.iter().enumerate() {
                 log.borrow_mut().cur_op = oi as u32;
                 if pending_pop {
                     stack.pop();
                     pending_pop = false;
                 }
-                let do_skip = matches!(op, Op::Skip | Op::ReadText) && last_start.is_some();
+                let do_skip = matches!(op, Op::Skip | Op::ReadText) && !open.is_empty();
                 if do_skip {
-                    let t = last_start.take().unwrap();
+                    let t = open.pop().unwrap();
                     skips += 1;
+                    if ti > t + 1 && half.is_none() {
+                        mid_skips += 1;
+                    }
                     let name = toks[t].name.as_bytes().to_vec();
                     let r = if matches!(op, Op::ReadText) { rd.read_text(&name).unwrap().map(|_| ()) } else { rd.skip(&name).map(|_| ()) };
                     if let Err(e) = r {
@@ -626,7 +636,6 @@ impl Scenario for Ns {
                             return;
                         }
                     };
-                    last_start = None;
                     // update the model and check that the reader is where the model is
                     let (ok, elem_name): (bool, Option<String>) = match (&want, &ev) {
                         (Want::Start(t), Event::Start(s)) if s.name().as_ref() == toks[*t].name.as_bytes() => {
@@ -638,7 +647,7 @@ impl Scenario for Ns {
                                 }
                             }
                             stack.push(sc);
-                            last_start = Some(*t);
+                            open.push(*t);
                             (true, Some(toks[*t].name.clone()))
                         }
                         (Want::Empty(t), Event::Empty(s)) if s.name().as_ref() == toks[*t].name.as_bytes() => {
@@ -651,6 +660,7 @@ impl Scenario for Ns {
                             (true, Some(toks[*t].name.clone()))
                         }
                         (Want::End(n), Event::End(e)) if e.name().as_ref() == n.as_bytes() => {
+                            open.pop();
                             pending_pop = true;
                             (true, Some(n.clone()))
                         }
@@ -730,6 +740,7 @@ impl Scenario for Ns {
             st.add("fault.pending", l.fired_pending as u64);
         }
         st.add("op.skip", skips);
+        st.add("op.skip_after_children_were_read", mid_skips);
         st.bump(&format!("source.{}", plan.stream.kind.name()));
         if let Err(p) = res {
             panic_to_violation(&p, plan, "ns run", "C03", &mut out);
@@ -826,6 +837,7 @@ impl Scenario for Nest {
         let mut nontrivial = false;
         let mut ambiguous = 0u64;
         let mut judged = 0u64;
+        let mut overflow = false;
         let res = guard(|| {
             let mut rd = Rd::new(&plan.doc, &shared, &plan.stream, plan.reader, plan.cfg, &log, plan.run);
             let mut cfg = plan.cfg;
@@ -988,7 +1000,12 @@ impl Scenario for Nest {
                         }
                         next.sort();
                         next.dedup();
-                        next.truncate(64);
+                        if next.len() > 512 {
+                            // too many interpretations to follow soundly: stop judging this
+                            // history (dropping candidates could drop the true one)
+                            overflow = true;
+                            return;
+                        }
                         cands = next;
                     }
                     _ => {
@@ -1017,6 +1034,7 @@ impl Scenario for Nest {
         }
         st.add("model.end_tags_judged", judged);
         st.add("model.ambiguous_steps", ambiguous);
+        st.add("model.candidate_overflow_runs", overflow as u64);
         st.bump(&format!("source.{}", plan.stream.kind.name()));
         if let Err(p) = res {
             panic_to_violation(&p, plan, "nest run", "C03", &mut out);
